@@ -43,5 +43,30 @@ for c in (1, 2, 4, 16, 32):
         case(alpha, c, ["si:g:" + seq(k, 3 * c + 1), "cw:4", "cw:9", "si:g:" + seq(k, 2), "cw:1", "si:g:-", "cw:3", "cf:2"], [3 * c + 1, 2, 0])
         case(alpha, c, ["cw:3", "cf:5", "si:g:" + seq(k, c), "cw:1", "cw:2", "cw:3"], [c])
         case(alpha, c, ["st:g:" + seq(k, 5 * c - 1), "cw:%d" % (2 * 5 + 3), "st:g:" + seq(k, 5 * c), "cf:7"], [5 * c - 1, 5 * c])
+# --- round 3: column counts 8, 48, 64; the 16-lane arm dispatcher (ng / nn); sample / new built buffers
+def rows_of(k, c, n, a=5, b=2):
+    t = seq(k, n * c, a, b) if n else "-"
+    return "-" if n == 0 else "/".join(t[i * c:(i + 1) * c] for i in range(n))
+
+for c in (8, 48, 64):
+    for alpha in ("dna", "protein"):
+        k = 5 if alpha == "dna" else 21
+        for L in (0, 1, c - 1, c, c + 1, 7 * c + 3):
+            case(alpha, c, ["si:g:" + seq(k, 9 * c + 5, 5, 2), "cw:4", "si:g:" + seq(k, L), "cw:%d" % (L // c + 3), "cf:2"], [L, 9 * c + 5])
+for b in ("ng", "nn"):
+    for alpha in ("dna", "protein"):
+        k = 5 if alpha == "dna" else 21
+        for L in (0, 15, 16, 17, 100, 1031):
+            case(alpha, 16, ["st:%s:%s" % (b, seq(k, 300, 5, 2)), "cw:7", "si:%s:%s" % (b, seq(k, L)), "cw:3", "cf:9"], [L, 300])
+for c in (1, 2, 4, 8, 16, 32, 48, 64):
+    for alpha in ("dna", "protein"):
+        k = 5 if alpha == "dna" else 21
+        for L in (0, 1, c, c + 1, 3 * c + 2):
+            need = (L + c - 1) // c
+            # sample, then look-ahead rows (copying arbitrary padding), then a stripe into the same buffer
+            case(alpha, c, ["sm:%d:%d" % (1000 + 7 * L + c, L), "cw:2", "cw:%d" % (need + 2), "cf:3", "si:g:" + seq(k, L + 1), "cw:1"], [L, L + 1])
+            # new: exact rows, extra rows, one row too few (Err leaves the buffer alone)
+            case(alpha, c, ["nw:%d:%s" % (L, rows_of(k, c, need)), "cw:3", "nw:%d:%s" % (L, rows_of(k, c, need + 2, 3, 4)), "cf:4",
+                            "nw:%d:%s" % (L + c + 1, rows_of(k, c, need)), "cw:5", "st:g:" + seq(k, L)], [L])
 open(os.path.join(os.path.dirname(os.path.abspath(__file__)), "boundary.txt"), "w").write("\n".join(lines) + "\n")
 print(len(lines), "cases")
